@@ -151,6 +151,9 @@ FuncStep(name, h, arg) ==
                    [] name = "astype" -> <<"ragged", A(h)[1], A(h)[2]>>          \* astype(own dtype): an equal, independent array
                    [] name \in {"sum", "max", "min", "mean", "argmax", "argmin"} -> Reduce(<<"n", name>>, A(h), -1, 0)    \* an observation
                    [] name = "unique_obs" -> Scan("unique", A(h), 0)      \* looked at, not kept: its shape depends on the values
+                   [] name = "nonzero_obs" -> Nonzero(A(h))               \* further observations (method spellings): coordinates,
+                   [] name = "colsum_obs" -> Col("colsum", A(h), 0)       \* column totals,
+                   [] name = "pad_obs" -> Pad(A(h), "right", Zero(A(h)[1]))   \* the padded matrix
                    [] OTHER -> Scan(name, A(h), 0)
       out == F(LAMBDA g : heap[g])
       mout == F(MArr)
